@@ -182,14 +182,35 @@ theorem connector_validation_defect_witness :
     compSyncB .conns (stepPreFix s0 dup).l (stepPreFix s0 dup).r = false ∧
     (sync (stepPreFix s0 dup).l (stepPreFix s0 dup).r 1).connectors.get "c" = some "mqtt{host=b}" ∧
     compSyncB .conns (step s0 dup).l (step s0 dup).r = true ∧
-    compSyncB .conns (stepPreFix s0 (.connUpdate "x" "kafka{}" true)).l (stepPreFix s0 (.connUpdate "x" "kafka{}" true)).r = false := by
+    compSyncB .conns (stepPreFix s0 (.connUpdate "x" "x" "kafka{}" true)).l (stepPreFix s0 (.connUpdate "x" "x" "kafka{}" true)).r = false := by
   decide
+
+/-- the key of an update is the path parameter on both sides, whatever name the body carries: the connector
+component stays synchronised (instance of the partial theorem — no cell of `connUpdate` is listed) … -/
+theorem connector_update_key_in_sync (s : Sys) (name bodyName body : String) (valid : Bool)
+    (h : CompSync .conns s.l s.r) :
+    CompSync .conns (step s (.connUpdate name bodyName body valid)).l (step s (.connUpdate name bodyName body valid)).r :=
+  step_preserves s _ .conns rfl h
+
+/-- … whereas proposing the command under the body's name (variant `stepBodyKey`) breaks it as soon as the two
+names differ: the acknowledged update is reverted by the next `sync_from_raft` and a phantom connector appears -/
+theorem connector_update_under_body_name_counterexample :
+    let s0 := run {} [.connCreate "mq_in" "mqtt~mq_in~host:broker-2" true]
+    let upd : Op := .connUpdate "mq_in" "mq_template" "mqtt~mq_template~host:broker-3" true
+    let bad := stepBodyKey s0 upd
+    compSyncB .conns (step s0 upd).l (step s0 upd).r = true ∧
+    bad.l.connectors.get "mq_in" = some "mqtt~mq_template~host:broker-3" ∧
+    compSyncB .conns bad.l bad.r = false ∧
+    (sync bad.l bad.r 1).connectors.get "mq_in" = some "mqtt~mq_in~host:broker-2" ∧
+    (sync bad.l bad.r 1).connectors.get "mq_template" = some "mqtt~mq_template~host:broker-3" ∧
+    compSyncB .conns (stepBodyKey s0 (.connUpdate "mq_in" "mq_in" "mqtt~mq_in~host:broker-3" true)).l
+      (stepBodyKey s0 (.connUpdate "mq_in" "mq_in" "mqtt~mq_in~host:broker-3" true)).r = true := by decide
 
 /-- non-vacuity: a history with registrations, a heartbeat recovery, a deployment with a failed replica, a
 manual migration, a rebalance through the API, connector changes, a teardown, a deregistration and
 re-synchronisations keeps status, groups, connectors, the worker set and the policy synchronised -/
 example :
-    let ops : List Op := [w1, w2, .connCreate "c" "mqtt{}" true, .connCreate "c" "dup" true, .connUpdate "c" "mqtt{x}" true,
+    let ops : List Op := [w1, w2, .connCreate "c" "mqtt{}" true, .connCreate "c" "dup" true, .connUpdate "c" "other" "mqtt{x}" true,
       .deploy "g" "grp" [⟨"p", "w1", true, "id1"⟩, ⟨"q", "w2", false, ""⟩], .tickSync 10,
       .migrate ⟨"g", "p", "w1", "w2", 0⟩ "id2" true, .heartbeat "w2" 1 5 15000, .tickSweep 20000,
       .heartbeat "w1" 0 0 20001, .rebalanceApi [⟨"g", "p", "w1", true, "id3"⟩], .tickSync 20002,
